@@ -338,6 +338,9 @@ func derive(prog *load.Program, model *Model, formatter string, probe bool) ([]*
 		InstallTypesModels(d.m, prog)
 		dv, err := d.run(formatter)
 		if err != nil {
+			if desc := choices.Describe(); strings.Contains(desc, "Config.") {
+				err = fmt.Errorf("%w — on the path where the generator decided on an option outside the flag table (%s): what the output depends on there is not analysed", err, desc)
+			}
 			return nil, err
 		}
 		dv.Choices = choices.Describe()
@@ -398,6 +401,20 @@ func (d *deriver) run(formatter string) (*Derived, error) {
 	})
 	if err != nil {
 		return und("%v", err)
+	}
+	// an option this checker has no environment for is not fixed at its zero value: whatever the generator
+	// decides on it is explored both ways (the path conditions name the field)
+	if st, ok := tConfig.Underlying().(*types.Struct); ok {
+		for i := 0; i < st.NumFields(); i++ {
+			f := st.Field(i)
+			switch f.Name() {
+			case "SrcDir", "PkgName", "Formatter", "StubImpl", "SkipEnsure", "WithResets":
+				continue
+			}
+			if b, ok := f.Type().Underlying().(*types.Basic); ok && b.Info()&(types.IsString|types.IsBoolean) != 0 {
+				cfg.Fields[f.Name()] = &interp.Unknown{Why: "Config." + f.Name() + " (an option outside the six this checker enumerates)"}
+			}
+		}
 	}
 	// the registry is a model: its value is opaque to the interpreted code (no field of it is read), its
 	// exported API is modelled below; what the real one does is decided by engines R and N
